@@ -268,4 +268,93 @@ theorem delL1_spec (n y : Nat) (hyn : y + 1 < n) : ∀ (ctx : Ctx) (c : Int) (cr
       simp only [scanArr, l1Step, absFr_mx, hq', Bool.false_eq_true, if_false]
       rfl
 
+/-! ### the recomputation F1 / C -/
+
+/-- the value F1 / C store: `tmp = left if left > right else right; m = tmp if tmp > minv else minv` -/
+def fixMax (V : List F) (n : Nat) (P : Nat) (Lp Rp : Int) : Fv F :=
+  mx2 (mx2 (mxAt V n Lp) (mxAt V n Rp)) (minv (nodeAt V P))
+
+set_option hygiene false in
+macro "recomp_fix_tac" : tactic => `(tactic| (
+  intro V N q
+  have hinP : inRange (P : Int) n = true := inRange_ptr n _ (by omega) hv.pos
+  have hinL : inRange (nAt (s.ia "tree_nodes") P 1) n = true := inRange_ptr n _ hLp hv.pos
+  have hinR : inRange (nAt (s.ia "tree_nodes") P 2) n = true := inRange_ptr n _ hRp hv.pos
+  have eN := fun (s' : State F) => evalN s' n
+  have oN := fun (s' : State F) => okN s' n
+  have eV := fun (s' : State F) => evalV s' n
+  have oV := fun (s' : State F) => okV s' n
+  have sM := fun (s' : State F) => stMax_spec fuel s' n
+  have sX := fun (t : String) (A B : FE) (s' : State F) => selMax_spec fuel t A B s'
+  have mS := fun (a b : String) (s' : State F) => minvScope_spec a b fuel n s'
+  simp [q, V, N, recompFixItems, seqL, exec, sM, sX, mS, eN, oN, eV, oV, hv.shpN, hv.shpV, ep, hinP, hinL, hinR, IE.ok_var,
+    IE.eval_var, FE.ok_var, FE.eval_var, setS, hrun, mxAt, fixMax]
+  try (intro a ha; simp [ha])))
+
+theorem recompFix10_spec (fuel n : Nat) (s : State F) (hv : VS s n) (hrun : s.ctl = .run) (P : Nat) (hP : P + 1 < n)
+    (hLp : PtrOK n (nAt (s.ia "tree_nodes") P 1)) (hRp : PtrOK n (nAt (s.ia "tree_nodes") P 2))
+    (ep : s.ienv "to_fix" = P) :
+    let V := s.fa "tree_vals"
+    let N := s.ia "tree_nodes"
+    let q := exec fuel (seqL (recompFixItems "10")) s
+    q.ctl = .run ∧ q.ia = s.ia ∧ q.shp = s.shp ∧
+      q.fa "tree_vals" = V.set (P * 8 + 7) (fixMax V n P (nAt N P 1) (nAt N P 2)).v ∧
+      (∀ a, a ≠ "tree_vals" → q.fa a = s.fa a) := by
+  recomp_fix_tac
+
+theorem recompFix12_spec (fuel n : Nat) (s : State F) (hv : VS s n) (hrun : s.ctl = .run) (P : Nat) (hP : P + 1 < n)
+    (hLp : PtrOK n (nAt (s.ia "tree_nodes") P 1)) (hRp : PtrOK n (nAt (s.ia "tree_nodes") P 2))
+    (ep : s.ienv "to_fix" = P) :
+    let V := s.fa "tree_vals"
+    let N := s.ia "tree_nodes"
+    let q := exec fuel (seqL (recompFixItems "12")) s
+    q.ctl = .run ∧ q.ia = s.ia ∧ q.shp = s.shp ∧
+      q.fa "tree_vals" = V.set (P * 8 + 7) (fixMax V n P (nAt N P 1) (nAt N P 2)).v ∧
+      (∀ a, a ≠ "tree_vals" → q.fa a = s.fa a) := by
+  recomp_fix_tac
+
+/-! ### the successor copy -/
+
+/-- row `z` gets the seven node fields of row `y` -/
+def copyArr (V : List F) (y z : Nat) : List F :=
+  ((((((V.set (z * 8) (vAt V y 0).v).set (z * 8 + 1) (vAt V y 1).v).set (z * 8 + 2) (vAt V y 2).v).set (z * 8 + 3)
+    (vAt V y 3).v).set (z * 8 + 4) (vAt V y 4).v).set (z * 8 + 5) (vAt V y 5).v).set (z * 8 + 6) (vAt V y 6).v
+
+theorem copyArr_length (V : List F) (y z : Nat) : (copyArr V y z).length = V.length := by simp [copyArr]
+
+theorem copyArr_get (V : List F) (y z : Nat) (hz : z * 8 + 7 < V.length) (i c : Nat) (hc : c < 8) :
+    vAt (copyArr V y z) i c = if i = z ∧ c < 7 then vAt V y c else vAt V i c := by
+  have h0 : z * 8 < V.length := by omega
+  unfold copyArr
+  rw [vAt_set _ _ _ _ _ _ (by decide) hc (by simp; omega), vAt_set _ _ _ _ _ _ (by decide) hc (by simp; omega),
+    vAt_set _ _ _ _ _ _ (by decide) hc (by simp; omega), vAt_set _ _ _ _ _ _ (by decide) hc (by simp; omega),
+    vAt_set _ _ _ _ _ _ (by decide) hc (by simp; omega), vAt_set _ _ _ _ _ _ (by decide) hc (by simp; omega),
+    vAt_set0 _ _ _ _ _ hc h0]
+  by_cases hi : i = z
+  · subst hi
+    rcases (by omega : c = 0 ∨ c = 1 ∨ c = 2 ∨ c = 3 ∨ c = 4 ∨ c = 5 ∨ c = 6 ∨ c = 7) with
+      rfl | rfl | rfl | rfl | rfl | rfl | rfl | rfl <;> simp
+  · simp [hi]
+
+theorem delCopyCols_spec (fuel n : Nat) (s : State F) (hv : VS s n) (hrun : s.ctl = .run) (y z : Nat) (hyn : y + 1 < n)
+    (hzn : z + 1 < n) (hyz : y ≠ z) (ey : s.ienv "y" = y) (ez : s.ienv "z" = z) :
+    let q := exec fuel (seqL delCopyColsItems) s
+    q = { s with fa := setS s.fa "tree_vals" (copyArr (s.fa "tree_vals") y z) } := by
+  intro q
+  have hiny : inRange (y : Int) n = true := inRange_ptr n _ (by omega) hv.pos
+  have hinz : inRange (z : Int) n = true := inRange_ptr n _ (by omega) hv.pos
+  have eV := fun (s' : State F) => evalV s' n
+  have oV := fun (s' : State F) => okV s' n
+  have sV := fun (s' : State F) => exec_stV fuel s' n
+  have hL : (s.fa "tree_vals").length = n * 8 := hv.lenV
+  have l0 : z * 8 < (s.fa "tree_vals").length := by omega
+  have l1 : z * 8 + 1 < (s.fa "tree_vals").length := by omega
+  have l2 : z * 8 + 2 < (s.fa "tree_vals").length := by omega
+  have l3 : z * 8 + 3 < (s.fa "tree_vals").length := by omega
+  have l4 : z * 8 + 4 < (s.fa "tree_vals").length := by omega
+  have l5 : z * 8 + 5 < (s.fa "tree_vals").length := by omega
+  have l6 : z * 8 + 6 < (s.fa "tree_vals").length := by omega
+  simp [q, delCopyColsItems, seqL, exec, sV, eV, oV, hv.shpV, ey, ez, hiny, hinz, setS, hrun, vAt_set, vAt_set0, l0, l1, l2, l3,
+    l4, l5, l6, hyz, copyArr, setS_setS_same]
+
 end XrsVerif.ILVs
